@@ -213,19 +213,36 @@ def first_diff(a, b):
     return n
 
 
+def regen_stream(seed, idx, shapes):
+    import random
+    rng = random.Random(seed * 6151 + idx)
+    mode = rng.choice(list(MODES))
+    argv0, conv = MODES[mode]
+    shape = rng.choice(shapes)
+    data, exp, info = mk_stream(rng, conv, shape, mode)
+    return mode, shape, argv0, data, exp, info
+
+
+def regen(rec):
+    """for ./check replay: -> (argv0 list, stdin bytes, expected output bytes)"""
+    g = rec["regen"]
+    mode, shape, argv0, data, exp, info = regen_stream(g["seed"], g["idx"], g["shapes"])
+    return argv0, data, exp
+
+
 def stream_task(task):
     bindir, seed, n, shapes = task
     import random
     rng = random.Random(seed)
     sh = Shard()
     os.makedirs(TMP, exist_ok=True)
-    for _ in range(n):
-        mode = rng.choice(list(MODES))
-        argv0, conv = MODES[mode]
-        shape = rng.choice(shapes)
-        data, exp, info = mk_stream(rng, conv, shape, mode)
+    for idx in range(n):
+        # one generator per stream, so that a replay can rebuild stream IDX alone
+        mode, shape, argv0, data, exp, info = regen_stream(seed, idx, shapes)
+        rng = random.Random(seed * 9176 + idx * 31 + 7)
         if not data:
             continue
+        regen = dict(module="c18", seed=seed, idx=idx, shapes=shapes)
         argv = [str(bindir / argv0[0])] + argv0[1:]
         fd, path = tempfile.mkstemp(dir=TMP, prefix="c18-")
         try:
@@ -253,8 +270,7 @@ def stream_task(task):
                        "%s over %d lines / %d bytes: output %s at byte %d of %d (model %d): %r vs %r" %
                        (" ".join(argv0), info["lines"], info["bytes"], what, i, len(base.out), len(exp), base.out[max(0, i - 20):i + 20],
                         exp[max(0, i - 20):i + 20]),
-                       dict(argv=argv, seed=seed, shape=shape,
-                            stdin=data[:20000].decode("latin-1") if len(data) <= 20000 else None), cls=cls0)
+                       dict(argv=argv, regen=regen, shape=shape), cls=cls0)
                 continue
             # the same bytes cut into other read() results
             scheds = ["rand:%d" % rng.randrange(1, 1 << 30), "k:%d" % rng.choice([1, 2, 3, 5, 7, 64, 1000, 4095])]
@@ -275,8 +291,7 @@ def stream_task(task):
                     sh.bad("chunking", "sed:%s:%s:sched-%s" % (mode, shape, k),
                            "%s, %d bytes: output under read schedule %s differs from one-read-per-4096 at byte %d (%d vs %d bytes, "
                            "rc %s vs %s)" % (" ".join(argv0), len(data), sc[:80], i, len(r.out), len(base.out), r.rc, base.rc),
-                           dict(argv=argv, env={"VERIF_READ_SCHED": sc}, seed=seed, shape=shape,
-                                stdin=data.decode("latin-1") if len(data) <= 20000 else None), cls=cls0 + (k,))
+                           dict(argv=argv, env={"VERIF_READ_SCHED": sc}, regen=regen, shape=shape), cls=cls0 + (k,))
             if len(data) <= (1 << 16) and rng.random() < .5:
                 # a real pipe fed in pieces with pauses: read() returns what has arrived
                 cuts = hazard_cuts(data, rng, limit=12)
@@ -290,8 +305,7 @@ def stream_task(task):
                     sh.bad("chunking", "sed:%s:%s:sched-pipe" % (mode, shape),
                            "%s, %d bytes written to a pipe in %d pieces with pauses: output differs at byte %d" %
                            (" ".join(argv0), len(data), len(cuts) + 1, first_diff(r[0], base.out)),
-                           dict(argv=argv, cuts=cuts, seed=seed, shape=shape,
-                                stdin=data.decode("latin-1") if len(data) <= 20000 else None), cls=cls0 + ("pipe",))
+                           dict(argv=argv, cuts=cuts, regen=regen, shape=shape), cls=cls0 + ("pipe",))
             sh.sample(dict(mode=mode, shape=shape, **info), cap=3)
         finally:
             try:
